@@ -13,8 +13,8 @@ structure Reach (st : State) : Prop where
   alive : Ops.AllAlive st
   keys : Copy.KeysOk st
 
-theorem Reach.of_run (ops : List Op) : Reach (run init ops) :=
-  ⟨(reach_ok ops).1, Ops.allAlive_reach ops, Copy.keysOk_reach ops⟩
+theorem Reach.of_run (p : Per) (ops : List Op) : Reach (run (init p) ops) :=
+  ⟨(reach_ok p ops).1, Ops.allAlive_reach p ops, Copy.keysOk_reach p ops⟩
 
 theorem Reach.step {st : State} (r : Reach st) (op : Op) : Reach (step st op) :=
   ⟨(step_ok r.inv op).1, r.alive.of_flags (Ops.step_flags st op), Copy.keysOk_step r.inv r.keys op⟩
@@ -91,17 +91,17 @@ theorem aAppendOther_abs_st {st : State} (h : SInv st) (ha : Ops.AllAlive st) (v
   rw [Copy.step_eq hcomp hexec, hab, habs, Ops.absArr_congr w fa fm,
     List.take_of_length_le (by rw [absArr_length st w h]; exact Nat.le_refl _)]
 
-theorem lInsertOther_abs (ops : List Op) (v w : Nat) (hv : v ≤ 1) (hw : w ≤ 1) (hne : v ≠ w) (pos : Option Nat)
-    (hp : pos.getD (absNode (run init ops) ⟨.L, v⟩).length ≤ (absNode (run init ops) ⟨.L, v⟩).length) :
-    absNode (step (run init ops) (.lInsertList v pos w)) ⟨.L, v⟩ =
-      (absNode (run init ops) ⟨.L, v⟩).take (pos.getD (absNode (run init ops) ⟨.L, v⟩).length) ++
-      absNode (run init ops) ⟨.L, w⟩ ++
-      (absNode (run init ops) ⟨.L, v⟩).drop (pos.getD (absNode (run init ops) ⟨.L, v⟩).length) :=
-  lInsertOther_abs_st (reach_ok ops).1 (Ops.allAlive_reach ops) v w hv hw hne pos hp
+theorem lInsertOther_abs (p : Per) (ops : List Op) (v w : Nat) (hv : v ≤ 1) (hw : w ≤ 1) (hne : v ≠ w) (pos : Option Nat)
+    (hp : pos.getD (absNode (run (init p) ops) ⟨.L, v⟩).length ≤ (absNode (run (init p) ops) ⟨.L, v⟩).length) :
+    absNode (step (run (init p) ops) (.lInsertList v pos w)) ⟨.L, v⟩ =
+      (absNode (run (init p) ops) ⟨.L, v⟩).take (pos.getD (absNode (run (init p) ops) ⟨.L, v⟩).length) ++
+      absNode (run (init p) ops) ⟨.L, w⟩ ++
+      (absNode (run (init p) ops) ⟨.L, v⟩).drop (pos.getD (absNode (run (init p) ops) ⟨.L, v⟩).length) :=
+  lInsertOther_abs_st (reach_ok p ops).1 (Ops.allAlive_reach p ops) v w hv hw hne pos hp
 
-theorem aAppendOther_abs (ops : List Op) (v w : Nat) (hv : v ≤ 1) (hw : w ≤ 1) (hne : v ≠ w) :
-    absArr (step (run init ops) (.aAppendArr v w)) v = absArr (run init ops) v ++ absArr (run init ops) w :=
-  aAppendOther_abs_st (reach_ok ops).1 (Ops.allAlive_reach ops) v w hv hw hne
+theorem aAppendOther_abs (p : Per) (ops : List Op) (v w : Nat) (hv : v ≤ 1) (hw : w ≤ 1) (hne : v ≠ w) :
+    absArr (step (run (init p) ops) (.aAppendArr v w)) v = absArr (run (init p) ops) v ++ absArr (run (init p) ops) w :=
+  aAppendOther_abs_st (reach_ok p ops).1 (Ops.allAlive_reach p ops) v w hv hw hne
 
 -- G2: refinement -------------------------------------------------------------------------------------------------
 
@@ -130,31 +130,31 @@ theorem after_copy_node {st : State} (r : Reach st) (k : Kind) (v : Nat) (hv : v
           (fun m hm hcm => hnt ((Ops.compile_targets hcp m hm).1 _ hcm)) he
         exact Ops.absNode_congr _ n m
 
-theorem list_insert_self_refines (ops : List Op) (v : Nat) (hv : v ≤ 1) (pos : Option Nat)
-    (hp : pos.getD (absNode (run init ops) ⟨.L, v⟩).length ≤ (absNode (run init ops) ⟨.L, v⟩).length) :
-    absNode (step (run init ops) (.lInsertList v pos v)) ⟨.L, v⟩ =
-    absNode (step (step (run init ops) (.copy ⟨.L, 1 - v⟩ v)) (.lInsertList v pos (1 - v))) ⟨.L, v⟩ := by
-  have r := Reach.of_run ops
+theorem list_insert_self_refines (p : Per) (ops : List Op) (v : Nat) (hv : v ≤ 1) (pos : Option Nat)
+    (hp : pos.getD (absNode (run (init p) ops) ⟨.L, v⟩).length ≤ (absNode (run (init p) ops) ⟨.L, v⟩).length) :
+    absNode (step (run (init p) ops) (.lInsertList v pos v)) ⟨.L, v⟩ =
+    absNode (step (step (run (init p) ops) (.copy ⟨.L, 1 - v⟩ v)) (.lInsertList v pos (1 - v))) ⟨.L, v⟩ := by
+  have r := Reach.of_run p ops
   obtain ⟨hw, hne⟩ := other_le hv
   obtain ⟨ht, hc⟩ := after_copy_node r .L v hv (by simp) rfl
   have r1 := r.step (.copy ⟨.L, 1 - v⟩ v)
   obtain ⟨s, hs, hab⟩ := lInsertSelf_abs r.inv v hv (r.alive.1 _ (Ops.valid_of hv (by simp))) pos hp
   rw [step_of_ok hs, hab, lInsertOther_abs_st r1.inv r1.alive v (1 - v) hv hw hne pos (by rw [hc]; exact hp), hc, ht]
 
-theorem array_append_self_refines (ops : List Op) (v : Nat) (hv : v ≤ 1) :
-    absArr (step (run init ops) (.aAppendArr v v)) v =
-    absArr (step (step (run init ops) (.copy ⟨.A, 1 - v⟩ v)) (.aAppendArr v (1 - v))) v := by
-  have r := Reach.of_run ops
+theorem array_append_self_refines (p : Per) (ops : List Op) (v : Nat) (hv : v ≤ 1) :
+    absArr (step (run (init p) ops) (.aAppendArr v v)) v =
+    absArr (step (step (run (init p) ops) (.copy ⟨.A, 1 - v⟩ v)) (.aAppendArr v (1 - v))) v := by
+  have r := Reach.of_run p ops
   obtain ⟨hw, hne⟩ := other_le hv
   have r1 := r.step (.copy ⟨.A, 1 - v⟩ v)
   have ht := (Copy.copy_equal_array_st r.inv r.alive (1 - v) v hw hv (fun e => hne e.symm)).1
-  have hc : absArr (step (run init ops) (.copy ⟨.A, 1 - v⟩ v)) v = absArr (run init ops) v :=
-    (Ops.step_frame_arr ops (.copy ⟨.A, 1 - v⟩ v) v (by
+  have hc : absArr (step (run (init p) ops) (.copy ⟨.A, 1 - v⟩ v)) v = absArr (run (init p) ops) v :=
+    (Ops.step_frame_arr p ops (.copy ⟨.A, 1 - v⟩ v) v (by
       simp only [Op.arrTargets, if_true, List.mem_cons, List.not_mem_nil, or_false]; exact hne)).2
   obtain ⟨s, hs, hab⟩ := aAppendSelf_abs r.inv v hv (r.alive.2 v hv)
   rw [step_of_ok hs, hab, aAppendOther_abs_st r1.inv r1.alive v (1 - v) hv hw hne, hc, ht]
   congr 1
-  have := range_get_self (absArr (run init ops) v)
+  have := range_get_self (absArr (run (init p) ops) v)
   rw [absArr_length _ v r.inv] at this
   exact this
 
@@ -204,10 +204,10 @@ theorem sAppendSame_noop {x : State} (h : SInv x) (ha : Ops.AllAlive x) (v w : N
     simpa [Kind.hasKey] using sPutOther_noop h v w j hv hal hj hkeys
   exact Copy.step_eq hc this
 
-theorem set_append_self_refines (ops : List Op) (v : Nat) (hv : v ≤ 1) :
-    absNode (step (run init ops) (.sAppendSet v v)) ⟨.S, v⟩ =
-    absNode (step (step (run init ops) (.copy ⟨.S, 1 - v⟩ v)) (.sAppendSet v (1 - v))) ⟨.S, v⟩ := by
-  have r := Reach.of_run ops
+theorem set_append_self_refines (p : Per) (ops : List Op) (v : Nat) (hv : v ≤ 1) :
+    absNode (step (run (init p) ops) (.sAppendSet v v)) ⟨.S, v⟩ =
+    absNode (step (step (run (init p) ops) (.copy ⟨.S, 1 - v⟩ v)) (.sAppendSet v (1 - v))) ⟨.S, v⟩ := by
+  have r := Reach.of_run p ops
   obtain ⟨hw, hne⟩ := other_le hv
   obtain ⟨ht, hc⟩ := after_copy_node r .S v hv (by simp) rfl
   have r1 := r.step (.copy ⟨.S, 1 - v⟩ v)
@@ -303,10 +303,10 @@ theorem sRemoveSame_empty {st1 : State} (h : SInv st1) (v w : Nat) (hv : v ≤ 1
     simpa [Copy.keysOf] using hz
   simp [absNode, this]
 
-theorem set_remove_self_refines (ops : List Op) (v : Nat) (hv : v ≤ 1) :
-    absNode (step (run init ops) (.sRemoveSet v v)) ⟨.S, v⟩ =
-    absNode (step (step (run init ops) (.copy ⟨.S, 1 - v⟩ v)) (.sRemoveSet v (1 - v))) ⟨.S, v⟩ := by
-  have r := Reach.of_run ops
+theorem set_remove_self_refines (p : Per) (ops : List Op) (v : Nat) (hv : v ≤ 1) :
+    absNode (step (run (init p) ops) (.sRemoveSet v v)) ⟨.S, v⟩ =
+    absNode (step (step (run (init p) ops) (.copy ⟨.S, 1 - v⟩ v)) (.sRemoveSet v (1 - v))) ⟨.S, v⟩ := by
+  have r := Reach.of_run p ops
   obtain ⟨hw, hne⟩ := other_le hv
   obtain ⟨ht, hc⟩ := after_copy_node r .S v hv (by simp) rfl
   have r1 := r.step (.copy ⟨.S, 1 - v⟩ v)
@@ -416,10 +416,10 @@ theorem mInsertSame_abs {x : State} (h : SInv x) (hko : Copy.KeysOk x) (ha : Ops
   rw [Copy.step_eq hc hs']
   exact Ops.absNode_congr _ (by rw [hn']) (fun it f _ => hm' _)
 
-theorem map_insert_self_refines (ops : List Op) (v : Nat) (hv : v ≤ 1) :
-    absNode (step (run init ops) (.mInsertMap ⟨.M, v⟩ v)) ⟨.M, v⟩ =
-    absNode (step (step (run init ops) (.copy ⟨.M, 1 - v⟩ v)) (.mInsertMap ⟨.M, v⟩ (1 - v))) ⟨.M, v⟩ := by
-  have r := Reach.of_run ops
+theorem map_insert_self_refines (p : Per) (ops : List Op) (v : Nat) (hv : v ≤ 1) :
+    absNode (step (run (init p) ops) (.mInsertMap ⟨.M, v⟩ v)) ⟨.M, v⟩ =
+    absNode (step (step (run (init p) ops) (.copy ⟨.M, 1 - v⟩ v)) (.mInsertMap ⟨.M, v⟩ (1 - v))) ⟨.M, v⟩ := by
+  have r := Reach.of_run p ops
   obtain ⟨hw, hne⟩ := other_le hv
   obtain ⟨ht, hc⟩ := after_copy_node r .M v hv (by simp) rfl
   have r1 := r.step (.copy ⟨.M, 1 - v⟩ v)
